@@ -507,6 +507,56 @@ func noContactCases() []*DefCase {
 	return out
 }
 
+// ---- 5. the contact's groups are stale with respect to the assets the session is resumed against -----------------------
+
+// While the session waited a query-based group was added / its query edited / it was removed (or the stored contact is
+// blocked and still in a static group).  C10: a resume the wait REJECTS must leave the session exactly as it was - no
+// group re-evaluation, no contact_groups_changed event, no modified_on; an accepted resume may (and does) re-evaluate.
+const defQueryGroupUUID = "1e1ce1e1-9288-4504-869e-022d1003c72a"
+
+func staleGroupAssets(query string) json.RawMessage {
+	fl := defFlow(2, "messaging", []any{defWaitNode(201, 202), defWaitNode(202, 203), defActionNode(203, 0, actionOfType("send_msg"))})
+	groups := []any{map[string]any{"uuid": defGroupUUID, "name": "Testers"}}
+	if query != "" {
+		groups = append(groups, map[string]any{"uuid": defQueryGroupUUID, "name": "Bobs", "query": query})
+	}
+	return defAssetsWith([]any{fl}, map[string]any{"groups": groups})
+}
+
+func staleGroupCase(change string, rejected string) *DefCase {
+	before, after := "", ""
+	switch change {
+	case "query-group-added":
+		before, after = "", `name = "Bob"`
+	case "query-group-edited":
+		before, after = `name = "Jim"`, `name = "Bob"`
+	case "query-group-edited-out":
+		before, after = `name = "Bob"`, `name = "Jim"`
+	case "query-group-removed":
+		before, after = `name = "Bob"`, ""
+	}
+	c := &DefCase{Kind: "definition", Scenario: "stale-groups:" + change + ":" + rejected, Assets: staleGroupAssets(before), Flow: uuidOf(kFlow, 2), Trigger: "manual"}
+	if change == "blocked-contact-in-static-group" {
+		c.Trigger = "manual-blocked-in-group"
+		after = ""
+	}
+	na := staleGroupAssets(after)
+	c.Ops = []DefOp{{Kind: rejected, NewAssets: na, Change: change}, {Kind: rejected}, {Kind: "msg", Text: "a"}, {Kind: rejected, NewAssets: na, Change: "stored and read back"}, {Kind: "msg", Text: "b"}}
+	return c
+}
+
+var staleGroupChanges = []string{"query-group-added", "query-group-edited", "query-group-edited-out", "query-group-removed", "blocked-contact-in-static-group"}
+
+func staleGroupCorpus() []*DefCase {
+	var out []*DefCase
+	for _, ch := range staleGroupChanges {
+		for _, rej := range []string{"dial", "timeout"} { // neither is accepted by a msg wait without timeout
+			out = append(out, staleGroupCase(ch, rej))
+		}
+	}
+	return out
+}
+
 // defCorpus: the hand-written cases of the hunt findings
 func defCorpus() []*DefCase {
 	var out []*DefCase
@@ -614,6 +664,12 @@ func runDefCase(prop string, c *DefCase, res *hx.Result) {
 	}
 	contact, err := flows.NewContact(sa, flows.ContactUUID(uuids.NewV4()), flows.ContactID(7), "Bob", "eng",
 		flows.ContactStatusActive, nil, time.Date(2019, 1, 1, 0, 0, 0, 0, time.UTC), nil, nil, nil, nil, nil, assets.PanicOnMissing)
+	if c.Trigger == "manual-blocked-in-group" {
+		// a stored contact that is blocked but (still) in a static group: its groups are stale from the start
+		contact, err = flows.NewContact(sa, flows.ContactUUID(uuids.NewV4()), flows.ContactID(7), "Bob", "eng",
+			flows.ContactStatusBlocked, nil, time.Date(2019, 1, 1, 0, 0, 0, 0, time.UTC), nil, nil,
+			[]*assets.GroupReference{assets.NewGroupReference(assets.GroupUUID(defGroupUUID), "Testers")}, nil, nil, assets.PanicOnMissing)
+	}
 	if err != nil {
 		res.Fail("harness:definition-contact", input, err.Error())
 		return
@@ -748,6 +804,9 @@ func defStream(prop string, r *hx.Rand, n int, res *hx.Result) {
 		corpus = append(corpus, noContactCases()...)
 	}
 	if prop == "C10" {
+		corpus = append(corpus, staleGroupCorpus()...)
+	}
+	if prop == "C10" {
 		// sessions without a contact, stored and read back before every resume ("sessions restored"): they must read back,
 		// and a rejected resume (the second op is one the msg wait rejects) must leave them untouched
 		for _, c := range noContactCases() {
@@ -775,6 +834,8 @@ func defStream(prop string, r *hx.Rand, n int, res *hx.Result) {
 		rr := r.Fork(fmt.Sprintf("def%d", i))
 		resetSources(int64(950000 + i))
 		switch {
+		case prop == "C10" && i%3 == 1:
+			runDefCase(prop, staleGroupCase(hx.Pick(rr, staleGroupChanges), hx.Pick(rr, []string{"dial", "timeout", "dial", "expiration"})), res)
 		case prop == "C10" || i%3 == 0:
 			runDefCase(prop, genTypeChange(rr), res)
 		case i%3 == 1:
